@@ -303,7 +303,7 @@ def column(draw, name, n):
     return {'name': name, 'vals': vals, 'counts': counts, 'seed': draw(st.integers(0, 2**32 - 1))}
 
 
-NAME_POOL = ['f0', 'f1', 'f11', 'price', 'ctr-7d', 'x y', 'Ünï', 'a.b']
+NAME_POOL = ['f0', 'f1', 'f11', 'price', 'ctr-7d', 'x y', 'Ünï', 'a.b', 'country_tr_clicks', 'x_tr_sqrt']   # incl. names carrying the _tr_ marker
 
 
 @st.composite
@@ -435,6 +435,16 @@ def oracle(case, rec, preset_clause=False):
         warnings.simplefilter('ignore')
         tr = FeatureTransformerGeneric({c['name'] for c in cols}, preset=','.join(presets))
         out = tr.construct_new_features(df.copy())
+        if case.get('reuse', True):
+            # the same transformer object used for a second mini-batch (same rows): same result, no state carried over
+            try:
+                out2 = tr.construct_new_features(df.copy())
+            except Exception as e:  # noqa: BLE001
+                raise Violation(f'second construct_new_features call on the same transformer object raised {type(e).__name__}: {e}',
+                                kind='C12/instance-reuse')
+            if list(out2.columns) != list(out.columns) or not out2.astype(str).equals(out.astype(str)):
+                raise Violation(f'second construct_new_features call on the same transformer object gives a different frame: '
+                                f'{len(out.columns)} vs {len(out2.columns)} columns', kind='C12/instance-reuse')
 
     union = set(expected_names)
     last = set(VAULT[presets[-1]])
@@ -537,7 +547,7 @@ def oracle_presets(case, rec):
     oracle(case, rec, preset_clause=True)
 
 
-ORACLES = {'C12/formula-keepdrop': oracle_formula, 'C12/preset-union': oracle_presets,
+ORACLES = {'C12/instance-reuse': oracle_formula, 'C12/formula-keepdrop': oracle_formula, 'C12/preset-union': oracle_presets,
            'C12/unknown-name': oracle_formula}
 
 
